@@ -13,7 +13,8 @@ def main(ctx):
         "store address is at the coordinate of the current loop variables, through the format's own level ordering, by "
         "provenance typing); K-sum (every enclosing non-target loop is mentioned by every additive term and vice versa); K-dense "
         "(terms in sparse-driven loops have a factor guarded by the loop); K-poly (every term is a monomial of the assignment "
-        "with the same rational coefficient, every monomial computed); branch/sub-loop lattice order and cursor stepping. "
+        "with the same rational coefficient, every monomial computed); K-complete (a terminal adds every monomial whose stored "
+        "entries are all matched on its path: no present operand is dropped); branch/sub-loop lattice order and cursor stepping. "
         "Engine S: axis-space typing of every user-order/storage-order conversion; identifier-template unification."
     )
     ctx.assumptions = FAMILY_ASSUMPTIONS + [
@@ -22,7 +23,7 @@ def main(ctx):
     ix = names.run(ctx)
     ctx.rule("C01.axis-typing", "every conversion between user order and storage order goes in the right direction", min_instances=60)
     axis.run_axis(ctx, ix, "C01.axis-typing", exceptions=tensorapi.axis_exceptions())
-    sweep(ctx, ["addr.k_addr", "addr.k_sum", "addr.k_dense", "addr.k_poly", "addr.lattice_order", "cover.k_cover"])
+    sweep(ctx, ["addr.k_addr", "addr.k_sum", "addr.k_dense", "addr.k_poly", "addr.k_complete", "addr.lattice_order", "cover.k_cover"])
     ctx.rule("C01.K-addr", min_instances=1500)
     ctx.rule("C01.K-sum", min_instances=1500)
     ctx.rule("C01.K-poly", min_instances=1500)
